@@ -39,6 +39,7 @@ HOOK_COMMITS = [
     "038e1f7 verif hook H1: logging macros compile to nothing under --cfg sozu_verif",
     "2b2dd03 verif hook H2: metrics macros record nothing under --cfg sozu_verif",
     "30c0265 verif hook H3: push_queue/push_event skip the QUEUE thread-local under --cfg sozu_verif",
+    "H4 (mux): public wrappers for private H2/pkawa/converter/serializer kernels under --cfg sozu_verif",
 ]
 
 REGISTRY["C11"] = {
@@ -118,5 +119,45 @@ REGISTRY["C18"] = {
           "bytes pulled from the socket == header length (payload is not consumed and dropped)", EX, cbmc_args=FS256),
         K("c18::c18_expect_no_overread_inet_tlv", "36-byte INET header with 8-byte TLV tail + payload in one segment",
           "bytes pulled from the socket == header length", EX, cbmc_args=FS256),
+    ],
+}
+
+PA = ["lib/src/protocol/mux/parser.rs"]
+SE = ["lib/src/protocol/mux/serializer.rs"] + PA
+H2 = ["lib/src/protocol/mux/h2.rs"]
+REGISTRY["C15"] = {
+    "technique": "bounded model checking (Kani/CBMC, SAT) of the nom HTTP/2 frame decoder, the frame serializers and the flood-detector step",
+    "level_text": "CBMC decides, for every frame header (all 9-byte values, all max_frame_size) and every frame body of the listed small sizes with symbolic flags/length/stream id/bytes, that frame_header/frame_body never panic (all slice indexing, arithmetic and sozu's own debug_assert! post-conditions), consume exactly 9 + payload_len bytes or return an error of the RFC 9113 class, and that gen_* outputs parse back; one step of H2FloodDetector from an arbitrary counter state gives a violation exactly when a counter is above its threshold. Bounded, not a proof.",
+    "level_note": "Body buffers are 12..20 bytes; SETTINGS / PRIORITY_UPDATE payload lengths are enumerated (heap vectors); stateful connection behaviour (ConnectionH2 with HashMap/slab/sockets), HPACK decoder internals and the Prioriser are outside the claim.",
+    "rule": "C15: one harness per frame type / encoder / detector step.",
+    "trusted_base": ["std::time::Instant::{now,elapsed} replaced by a monotone stub clock (elapsed is symbolic whole seconds until now() is called, then 0)"],
+    "assumptions": ["flood detector pre-state: counters arbitrary but lifetime RST counter < u64::MAX and abusive <= total (the representation invariant; saturation is unreachable before the cap trips)"],
+    "residual": "all stateful robustness (frame in unexpected connection state, slot reuse after remove_dead_stream, GOAWAY draining, MAX_LOOP_ITERATIONS backstop), Prioriser bound (HashMap), HPACK decode, header-list budget accounting inside the HPACK callback.",
+    "obligations": [
+        K("c15::c15_frame_header_total", "every input of 0..12 bytes, every max_frame_size: u32; unwind 6",
+          "no panic; Ok => exactly 9 bytes consumed, fields == wire bytes, reserved bit masked, payload_len <= max, stream-id parity rule per type; Err classes: oversize => FRAME_SIZE_ERROR, bad stream id => PROTOCOL_ERROR", PA, min_covers=5),
+        K("c15::c15_body_data", "DATA: symbolic payload_len (u32) / flags / stream id, 0..20 body bytes; unwind 6",
+          "Ok => consumed == payload_len and the payload slice is exactly payload[pad-byte .. len - pad] (no padding leak, no byte dropped); complete payload is only rejected for bad padding, as PROTOCOL_ERROR", PA, min_covers=3),
+        K("c15::c15_body_headers", "HEADERS: symbolic len/flags (PADDED, PRIORITY, END_*), 0..20 bytes; unwind 6",
+          "Ok => exact consumption; fragment == payload minus pad byte, 5-byte priority and trailing padding; flags mapped; reject iff padding+priority do not fit", PA, min_covers=2),
+        K("c15::c15_body_fixed_size_frames", "PRIORITY / RST_STREAM / PING / WINDOW_UPDATE / GOAWAY: symbolic len/flags, 0..16 bytes; unwind 10",
+          "wrong size => FRAME_SIZE_ERROR; right size and bytes present => Ok with fields == wire bytes (31-bit masks applied), exact consumption", PA, min_covers=3),
+        K("c15::c15_body_settings", "SETTINGS payload_len in {0,6,7,12,18}, symbolic flags and entry bytes, 0..20 bytes; unwind 6",
+          "len % 6 != 0 or ACK with payload => FRAME_SIZE_ERROR; else one entry per 6 bytes with id/value == wire bytes, exact consumption", PA),
+        K("c15::c15_body_settings_cap", "every payload_len with more than 64 entries; unwind 4", "refused with FRAME_SIZE_ERROR before allocating", PA),
+        K("c15::c15_body_push_continuation_unknown", "PUSH_PROMISE / CONTINUATION / unknown types > 0x10, symbolic len, 0..12 bytes; unwind 6",
+          "PUSH_PROMISE always PROTOCOL_ERROR; CONTINUATION and unknown frames consume exactly payload_len", PA, min_covers=2),
+        K("c15::c15_body_priority_update", "PRIORITY_UPDATE payload_len in {3,4,7,1029}; unwind 6",
+          "< 4 => FRAME_SIZE_ERROR; value > 1024 => PROTOCOL_ERROR; else exact consumption, 31-bit stream id, value length", PA),
+        K("c15::c15_inverse_rst_stream", "all stream ids, the 14 error codes; unwind 10", "gen_rst_stream output is 13 bytes and parses back to the same fields (reserved bit masked)", SE),
+        K("c15::c15_inverse_window_update", "all stream ids, all increments; unwind 10", "gen_window_update output parses back; increment masked to 31 bits", SE),
+        K("c15::c15_inverse_goaway_ping", "all last-stream ids, 14 codes, all 8-byte ping payloads; unwind 10", "gen_goaway / gen_ping_acknowledgement outputs parse back", SE),
+        K("c15::c15_error_class_mapping", "all u32 codes; all 14 H2 errors as Error/Failure; unwind 4", "H2Error <-> u32 is a bijection on 0..=0xd; error_nom_to_h2 preserves the H2 class, maps everything else to PROTOCOL_ERROR", PA + H2),
+        K("c15::c15_flood_check_step", "arbitrary counters (13 fields), arbitrary validated config, arbitrary elapsed seconds; unwind 4",
+          "check_flood: window counters halve exactly on expiry and never grow, lifetime counters never decay, violation returned <=> some counter above its threshold, always ENHANCE_YOUR_CALM with count > threshold", H2,
+          stubs=["std::time::Instant::now", "std::time::Instant::elapsed"], min_covers=2),
+        K("c15::c15_flood_rst_lifetime_step", "arbitrary counters/config, response_started and emitted symbolic; unwind 4",
+          "record_rst_lifetime / record_rst_emitted: +1 saturating on exactly the right counters, violation <=> above cap", H2,
+          stubs=["std::time::Instant::now", "std::time::Instant::elapsed"], min_covers=2),
     ],
 }
